@@ -82,7 +82,7 @@ def model_specs(tier, seed):
     n = 60 if tier == "quick" else 400
     specs = [["hand", h] for h in HAND]
     if tier != "quick":
-        specs += [["shipped", "textbook"], ["shipped", "mini"]]
+        specs += [["shipped", "textbook"]]
     k = seed * 10000
     got = 0
     while got < n and k < seed * 10000 + 5000:
